@@ -331,5 +331,8 @@ class sun_md5_crypt(uh.HasRounds, uh.HasSalt, uh.GenericHandler):  # type: ignor
         # NOTE: no reference for how sun_md5_crypt handles unicode
         if isinstance(secret, str):
             secret = secret.encode("utf-8")
+        # NOTE: crypt() takes C strings; the algorithm is defined over "a series of non-null bytes"
+        if b"\x00" in secret:
+            raise uh.exc.NullPasswordError(self)
         config = str_to_bascii(self.to_string(_withchk=False))
         return raw_sun_md5_crypt(secret, self.rounds, config).decode("ascii")
